@@ -523,14 +523,22 @@ class ProxyFault:
         got = term.visible_text(file.getvalue()).split("\n")
         if got and got[-1] == "":
             got.pop()
-        i = 0
-        for ln, optional in expected:
-            if i < len(got) and got[i] == ln:
-                i += 1
-            elif not optional:
-                self._v("complete", "line-lost-or-mangled-after-fault", "after %d failed print(s) the console shows %r; written lines (optional = completed by a failed write): %r" % (self.failed, got, expected))
-                return
-        if i != len(got):
+        # got must be `expected` with some of the optional lines left out (lines may repeat, e.g.
+        # empty ones, so this is a small search, not a greedy walk)
+        memo = {}
+
+        def fits(i, j):
+            if (i, j) in memo:
+                return memo[i, j]
+            if i == len(expected):
+                r = j == len(got)
+            else:
+                ln, optional = expected[i]
+                r = (j < len(got) and got[j] == ln and fits(i + 1, j + 1)) or (optional and fits(i + 1, j))
+            memo[i, j] = r
+            return r
+
+        if not fits(0, 0):
             self._v("complete", "line-lost-or-mangled-after-fault", "after %d failed print(s) the console shows %r; written lines (optional = completed by a failed write): %r" % (self.failed, got, expected))
 
     def finish(self):
